@@ -240,8 +240,52 @@ def fieldsOf : String → Option String
   | "CRS" => some "_crs,_epsg,_str"
   | _ => none
 
+/-! ### constructors / normalisers -/
+
+def fmtNum (n : PyNum) : String :=
+  match n.kind with
+  | .bool => if n.val = 0 then "b0" else "b1"
+  | .int => "i" ++ fmtRat n.val
+  | .float => if n.negz then "z" else "f" ++ fmtRat n.val
+
+def fmtXYCls : XYCls → String
+  | .xy => "XY" | .resolution => "Resolution" | .index2d => "Index2d" | .shape2d => "Shape2d"
+
+def fmtXY (v : XYv) : String := s!"{fmtXYCls v.cls} {fmtNum v.x} {fmtNum v.y}"
+
+def parseHow? : List String → Option (How × List String)
+  | "HS" :: ty :: tx :: rest => do pure (.shape (← parseInt? ty) (← parseInt? tx), rest)
+  | "HC" :: y :: x :: rest => do pure (.chunks (← parseList? parseInt? y) (← parseList? parseInt? x), rest)
+  | _ => none
+
+def parseCtor? (xs : List String) : Option (Res GBTiles × List String) := do
+  let (g, rest) ← parseAnyBox? xs
+  let (h, rest) ← parseHow? rest
+  pure (GBTiles.mk' g h, rest)
+
+def runCtor (args : List String) : Option String :=
+  match args with
+  | ["res", x, y] => do
+    let x ← parseNum? x
+    let y ← parseOpt? parseNum? y
+    pure (fmtXY (Resolution.mk' x y))
+  | ["resn", "N", x] => do pure (fmtXY (resNorm (.num (← parseNum? x))))
+  | ["resn", "R", c, x, y] => do pure (fmtXY (resNorm (.res (← parseXY? [c, x, y]))))
+  | ["shapen", "S", c, x, y] => do pure (fmtRes fmtXY (shapeNorm (.shape2d (← parseXY? [c, x, y]))))
+  | ["shapen", "X", c, x, y] => do pure (fmtRes fmtXY (shapeNorm (.xy (← parseXY? [c, x, y]))))
+  | ["shapen", "Q", xs] => do pure (fmtRes fmtXY (shapeNorm (.seq (← parseList? parseNum? xs))))
+  | ["shtuple", c, x, y, t] => do
+    pure (fmtRes fmtBool (Shape2d.eqTuple (← parseXY? [c, x, y]) (← parseList? parseNum? t)))
+  | "gbtctor" :: rest => do
+    let (a, rest) ← parseCtor? rest
+    let (b, rest) ← parseCtor? rest
+    if rest ≠ [] then none
+    else pure (pairRes a b fun a b => s!"{fmtBool (a.eq b)} {fmtBool (a.token == b.token)}")
+  | _ => none
+
 def run (args : List String) : Option String :=
   match args with
+  | "ctor" :: rest => runCtor rest
   | ["hist", ts, es, ops] => do
     let ts ← parseList? parseTextEntry? ts
     let es ← parseList? parseEpsgEntry? es
